@@ -352,22 +352,104 @@ def mode_inspect(cases):
         rec["load_ledger"] = [list(x) for x in builtins._verif_ledger]
         if case.get("entry"):
             rec["entry"] = entry_variants(sio, case, data, T, rec)
-        # 3. visualize, default sink, stdout captured
-        buf = io.StringIO()
-        try:
-            with contextlib.redirect_stdout(buf):
-                sio.visualize(data, trusted=T, show=case["show"])
-            rec["vis"] = "ok:" + buf.getvalue().rstrip("\n")
-        except Exception as e:
-            rec["vis"] = "err:" + exc_enum(e)
+        # 3. visualize, default sink, stdout captured the way a terminal or a file receives it: a UTF-8 text stream over
+        # bytes (a text that cannot be encoded makes print raise, as it does on a real stdout)
+        rec["vis"] = run_default_sink(lambda: sio.visualize(data, trusted=T, show=case["show"]))
         # 4. raw rows
         rows = []
         try:
             sio.visualize(data, trusted=T, show=case["show"], sink=lambda nodes, show, **kw: rows.extend(nodes))
             rec["rows"] = "ok:" + "\n".join(
                 f"{r.level}|{r.key}|{r.val}|{int(r.is_self_safe)}{int(r.is_safe)}{int(r.is_last)}" for r in rows)
+            # the same rows field by field (a key or a type name may hold a line break or a bar)
+            rec["rowlist"] = [rowrec(r) for r in rows]
         except Exception as e:
             rec["rows"] = "err:" + exc_enum(e)
+        out.append(rec)
+    return out
+
+
+def rowrec(r):
+    return [r.level, str(r.key), str(r.val), bool(r.is_self_safe), bool(r.is_safe), bool(r.is_last)]
+
+
+def run_default_sink(fn):
+    """fn prints to sys.stdout; returns "ok:<text>" or "err:<enum>" (UnicodeEncodeError under its own name: it is what a
+    UTF-8 stdout raises when the text holds a lone surrogate)"""
+    raw = io.BytesIO()
+    stream = io.TextIOWrapper(raw, encoding="utf-8", errors="strict", newline="\n", write_through=True)
+    try:
+        with contextlib.redirect_stdout(stream):
+            fn()
+        stream.flush()
+        return "ok:" + raw.getvalue().decode("utf-8").rstrip("\n")
+    except UnicodeEncodeError:
+        return "err:UnicodeEncodeError"
+    except Exception as e:
+        return "err:" + exc_enum(e)
+
+
+def mode_charset(req):
+    """C13: the model's table of printable code points against str.isprintable of THIS interpreter (the one that runs
+    skops), on the whole charset on which the model claims to be exact; and the escape of every unprintable one"""
+    import unicodedata
+    cfg = req[0]
+    pr, cs = cfg["printable"], cfg["charset"]
+    bad, n = [], 0
+    for lo, hi in cs:
+        for c in range(lo, hi + 1):
+            n += 1
+            model = any(a <= c <= b for a, b in pr)
+            if chr(c).isprintable() != model:
+                bad.append(c)
+    outside = [c for a, b in pr for c in (a, b) if not any(lo <= c <= hi for lo, hi in cs)]
+    return [{"python": sys.version.split()[0], "unidata": unicodedata.unidata_version, "checked": n, "disagree": bad[:40],
+             "printable_outside_charset": outside}]
+
+
+def mode_dumpvis(req):
+    """C13, the text on real dumps: dumps(value) is visualized in all nine (show x trusted) combinations through the default
+    sink over a UTF-8 byte stream; the row stream (custom sink) is recorded once per trusted list"""
+    import skops.io as sio
+    from values import build
+    out = []
+    for spec in req:
+        rec = {}
+        try:
+            obj = build(spec)
+        except Exception as e:
+            out.append({"build": "err:" + type(e).__name__})
+            continue
+        try:
+            data = sio.dumps(obj)
+        except BaseException as e:  # noqa
+            out.append({"build": "ok", "dump": "raises:" + type(e).__name__})
+            continue
+        rec["build"], rec["dump"] = "ok", "ok"
+        try:
+            gut = sio.get_untrusted_types(data=data)
+        except Exception:
+            gut = []
+        rec["combos"], rec["rows"] = {}, {}
+        for tname, T in (("none", None), ("full", gut), ("half", gut[: len(gut) // 2])):
+            rows = []
+            try:
+                sio.visualize(data, trusted=T, show="all", sink=lambda nodes, show, **kw: rows.extend(nodes))
+                rec["rows"][tname] = [rowrec(r) for r in rows]
+            except Exception as e:
+                rec["rows"][tname] = "raises:" + type(e).__name__ + ":" + str(e)[:60]
+            for show in ("all", "untrusted", "trusted"):
+                def call(show=show, T=T):
+                    sio.visualize(data, show=show, trusted=T)
+                raw = io.BytesIO()
+                stream = io.TextIOWrapper(raw, encoding="utf-8", errors="strict", newline="\n", write_through=True)
+                try:
+                    with contextlib.redirect_stdout(stream):
+                        call()
+                    stream.flush()
+                    rec["combos"][f"{show}/{tname}"] = {"vis": "ok", "text": raw.getvalue().decode("utf-8").rstrip("\n")}
+                except Exception as e:
+                    rec["combos"][f"{show}/{tname}"] = {"vis": "raises:" + type(e).__name__ + ":" + str(e)[:80]}
         out.append(rec)
     return out
 
@@ -626,6 +708,8 @@ def mode_robust(req_cases):
 MODES["robust"] = mode_robust
 MODES["universe"] = mode_universe
 MODES["inspect"] = mode_inspect
+MODES["charset"] = mode_charset
+MODES["dumpvis"] = mode_dumpvis
 MODES["resolve_table"] = mode_resolve_table
 
 
